@@ -115,6 +115,10 @@ class Client(kernel.Actor):
             self.sim.loop.call_at(self.sleep_until, lambda: None)
         elif it[0] == "barrier":
             pass
+        elif it[0] == "clock":
+            # fault: the relay's wall clock jumps (monotonic time is unaffected)
+            self.sim.clock.skew += float(it[1])
+            self.sim.faults["clock_jump"] += 1
 
     def disconnect(self):
         import falcon
